@@ -437,7 +437,7 @@ static void run_one(case_t const& c)
     // agent that carries the wake-up; so the OS-thread run of the same case (same program, same
     // schedule seed) must produce the same log line by line (the `tk.stat` line apart).  A
     // difference is reported as a `tk.diff <first differing line>` line in front of `end`.
-    if (c.geti("diff", 1) != 0 && tout.find("\nend hang") == std::string::npos)
+    if (c.geti("diff", 1) != 0 && WIFEXITED(st) && WEXITSTATUS(st) == 0 && tout.find("\nend hang") == std::string::npos)
     {
         std::string oout;
         int st2 = run_captured(c, false, 120, oout);
